@@ -642,8 +642,73 @@ def _feat_case(rng, max_faces):
     return case
 
 
+def _rational_rotation(rng):
+    """an exact rotation matrix with rational entries (unit quaternion with integer components), generically tilted"""
+    while True:
+        a, b, c, d = (rng.randint(-7, 7) for _ in range(4))
+        n = a * a + b * b + c * c + d * d
+        if n and sum(1 for x in (a, b, c, d) if x) >= 3: break
+    n = Fraction(n)
+    return [[(a * a + b * b - c * c - d * d) / n, 2 * (b * c - a * d) / n, 2 * (b * d + a * c) / n],
+            [2 * (b * c + a * d) / n, (a * a - b * b + c * c - d * d) / n, 2 * (c * d - a * b) / n],
+            [2 * (b * d - a * c) / n, 2 * (c * d + a * b) / n, (a * a - b * b - c * c + d * d) / n]]
+
+
+def _feat_flat(rng):
+    """zero-thickness but manifold shapes in a generically tilted plane: a sheet folded flat onto itself, a flat pillow (zero-volume
+    tetrahedron), a polygon seen from both sides, a triangulated grid seen from both sides.  The rim edges separate faces whose
+    normals are EXACTLY opposite (180° apart: the sharpest crease there is), the other interior edges coplanar faces."""
+    kind = rng.choice(["pillow", "folded", "two-sided-polygon", "two-sided-grid"])
+    if kind == "pillow":
+        P = [(0, 0), (1, 0), (1, 1), (0, 1)]; F = [[0, 1, 2], [0, 2, 3], [1, 0, 3], [1, 3, 2]]
+    elif kind == "folded":
+        P = [(0, 0), (1, 0), (1, 1), (1, 0)]; F = [[0, 1, 2], [2, 3, 0]]            # vertices 1 and 3 coincide
+    elif kind == "two-sided-polygon":
+        k = rng.choice([3, 4, 5, 6])
+        P = [[(0, 0), (2, 0), (3, 1), (2, 3), (0, 3), (-1, 1)][i] for i in range(k)]
+        F = [list(range(k)), list(range(k - 1, -1, -1))]
+    else:
+        nu, nv = rng.randint(2, 4), rng.randint(2, 4)
+        P = [(i, j) for i in range(nu) for j in range(nv)]
+        rim = {i * nv + j for i in range(nu) for j in range(nv) if i in (0, nu - 1) or j in (0, nv - 1)}
+        back = {}
+        for v in range(nu * nv):
+            if v in rim: back[v] = v
+            else: back[v] = len(P); P.append(P[v])                                 # interior vertices of the back side coincide with the front
+        F = []
+        for i in range(nu - 1):
+            for j in range(nv - 1):
+                a, b, c, d = i * nv + j, (i + 1) * nv + j, (i + 1) * nv + j + 1, i * nv + j + 1
+                tri = ([[a, d, c], [a, c, b]] if rng.random() < 0.5 else [[a, d, b], [d, c, b]])
+                F += tri + [[back[t[2]], back[t[1]], back[t[0]]] for t in tri]
+    R = _rational_rotation(rng)
+    sc, t = Fraction(rng.choice([1, 2, 3, 5]), rng.choice([1, 2, 4])), [Fraction(rng.randint(-8, 8), 4) for _ in range(3)]
+    V = [[float(sc * (R[r][0] * x + R[r][1] * y) + t[r]) for r in range(3)] for (x, y) in P]
+    F = G.rotate_faces(rng, F) if rng.random() < 0.5 else F
+    spec = Spec(len(V), F)
+    ne = len(spec.ekeys)
+    hard = sorted(rng.sample(range(ne), rng.randint(0, max(1, ne // 3)))) if rng.random() < 0.4 else []
+    case = {"t": "f", "V": V, "F": F, "tag": "flat:" + kind, "normals": None, "hard": hard, "only_border": rng.random() < 0.1,
+            "flag_corners": rng.random() < 0.5, "order": rng.choice([4, 6, 3]), "graph": rng.random() < 0.2}
+    for x in edge_dq(case, spec):
+        if x is None: continue
+        if x[1] == 0: return None
+        c = cos_float(x)
+        if abs(c - 0.5) < 1e-7 or abs(c - 0.8) < 1e-7: return None
+    return case
+
+
+def _flat_cases(rng, n):
+    k = 0
+    while k < n:
+        c = _feat_flat(rng)
+        if c is not None and G.surface_stats(len(c["V"]), c["F"])["manifold"]:
+            k += 1; yield c
+
+
 def cases(rng, tier):
     nb, nf, mf = (140, 260, 50) if tier == "quick" else (1500, 3000, 150)
+    for c in _flat_cases(rng, 40 if tier == "quick" else 400): yield c
     for k in range(nb):
         yield _border_case(rng, mf if k % 3 else 14)
     n = 0
@@ -744,6 +809,8 @@ def shrink(case, still):
 
 
 def search_on_break(rng, broken, mismatches):
+    # zero-thickness shapes under generic tilts first (normals exactly opposite: the extreme of the sharp-angle test)
+    for c in _flat_cases(rng, 200): yield c
     for _ in range(60):
         yield _border_case(rng, 30)
     n = 0
